@@ -319,12 +319,34 @@ theorem inv_fclose {h : Host} (hi : Inv h) (s : Sock) : Inv (foreignClose h s) :
       intro e; subst e
       exact hs.2 hx
 
+theorem inv_gc {h : Host} (hi : Inv h) (s : Sock) : Inv (finalizeOrphan h s) := by
+  unfold finalizeOrphan
+  split
+  · next hs =>
+    refine ⟨hi.bnd.sublist List.filter_sublist, ?_, hi.heldNodup, hi.heldDisj, hi.heldNonzero, ?_, ?_⟩
+    · intro p ss hg x hx
+      simp only
+      rw [List.mem_filter]
+      refine ⟨hi.heldBound p ss hg x hx, ?_⟩
+      simp only [ne_eq, decide_not, Bool.not_eq_eq_eq_not, Bool.not_true, decide_eq_false_iff_not]
+      intro e; subst e
+      exact hi.orphDisj x hs p ss hg hx
+    · intro x hx
+      simp only at hx ⊢
+      rw [List.mem_filter] at hx ⊢
+      exact ⟨hi.orphBound x hx.1, hx.2⟩
+    · intro x hx p ss hg
+      simp only at hx hg
+      exact hi.orphDisj x (List.mem_filter.mp hx).1 p ss hg
+  · exact hi
+
 theorem inv_step {h : Host} (hi : Inv h) (op : HostOp) : Inv (hostStep h op) := by
   cases op with
   | «open» pod random reqs choices => exact inv_open hi pod random reqs choices
   | close pod => exact inv_close hi pod
   | fbind s => exact inv_fbind hi s
   | fclose s => exact inv_fclose hi s
+  | gc s => exact inv_gc hi s
 
 theorem inv_run {h : Host} (hi : Inv h) (ops : List HostOp) : Inv (ops.foldl hostStep h) := by
   induction ops generalizing h with
@@ -362,6 +384,9 @@ theorem held_step {h : Host} (hi : Inv h) {pod : String} {ss : List Sock}
     split <;> exact hg
   | fclose s =>
     simp only [hostStep, foreignClose]
+    split <;> exact hg
+  | gc s =>
+    simp only [hostStep, finalizeOrphan]
     split <;> exact hg
 
 theorem held_run {pod : String} {ss : List Sock} : ∀ (ops : List HostOp) {h : Host}, Inv h →
